@@ -71,7 +71,7 @@ SeqSet(s) == {s[i] : i \in DOMAIN s}
 \*       incn     - <<ep,sid>> -> incarnation counter (open/accept events)
 MiscInit == [probe |-> [e \in EP |-> -1], thr |-> <<>>, cbs |-> <<>>, ackDue |-> [e \in EP |-> -1],
              incn |-> <<>>, fwdMax |-> [e \in EP |-> -1],
-             nack |-> [line |-> 0, to |-> -1, set |-> {}, hb |-> FALSE], teardown |-> FALSE, shutAt |-> <<>>, shutRet |-> <<>>, closedInc |-> <<>>, wdl |-> <<>>, rdl |-> <<>>, reqs |-> <<>>, gen |-> <<>>, performed |-> {}, genAtRx |-> <<>>, rsGen |-> <<>>,
+             nack |-> [line |-> 0, to |-> -1, set |-> {}, hb |-> FALSE], teardown |-> FALSE, fuzzed |-> FALSE, abortSeen |-> [e \in EP |-> FALSE], shutAt |-> <<>>, shutRet |-> <<>>, closedInc |-> <<>>, wdl |-> <<>>, rdl |-> <<>>, reqs |-> <<>>, gen |-> <<>>, performed |-> {}, genAtRx |-> <<>>, rsGen |-> <<>>,
              pendReads |-> <<>>, hbCalls |-> <<>>, hbSeen |-> {}, txn |-> [e \in EP |-> 0]]
 
 InitVars ==
@@ -251,17 +251,20 @@ TxViol(p) ==
 
 TrTx ==
   /\ IsEv("tx")
-  /\ pkt' = (E.pid :> [ep |-> E.ep, ck |-> E.ck, forged |-> FALSE, genuine |-> TRUE, t |-> E.t, kinds |-> E.kinds, chunks |-> <<>>]) @@ pkt
+  /\ pkt' = (E.pid :> [ep |-> E.ep, ck |-> E.ck, forged |-> FALSE, genuine |-> TRUE, t |-> E.t, kinds |-> E.kinds, chunks |-> <<>>, class |-> "", malformed |-> FALSE]) @@ pkt
   /\ viol' = viol \cup TxViol(E)
-  /\ misc' = [misc EXCEPT !.txn[E.ep] = @ + 1]
+  /\ misc' = [misc EXCEPT !.txn[E.ep] = @ + 1,
+                           !.abortSeen[E.ep] = @ \/ HasKind(E, {"abort"}),
+                           !.teardown = @ \/ HasKind(E, {"abort"})]
   /\ l' = l + 1
   /\ UNCHANGED <<scen, cfg, msg, order, reads, ch, hi, rcvd, skipTo, ackCum, ackGap, arw, outst, lastSack, sackEv, sn, step, newData, rs, acc>>
 
 TrForge ==
   /\ IsEv("forge")
-  /\ pkt' = (E.pid :> [ep |-> E.ep, ck |-> E.ck, forged |-> TRUE, genuine |-> E.genuine, t |-> E.t, kinds |-> E.kinds, chunks |-> <<>>]) @@ pkt
+  /\ pkt' = (E.pid :> [ep |-> E.ep, ck |-> E.ck, forged |-> TRUE, genuine |-> E.genuine, t |-> E.t, kinds |-> E.kinds, chunks |-> <<>>, class |-> E.class, malformed |-> E.pwf # <<>>]) @@ pkt
+  /\ misc' = [misc EXCEPT !.fuzzed = @ \/ E.class = "mutated"]
   /\ l' = l + 1
-  /\ UNCHANGED <<scen, cfg, msg, order, reads, ch, hi, rcvd, skipTo, ackCum, ackGap, arw, outst, lastSack, sackEv, sn, step, newData, misc, rs, acc, viol>>
+  /\ UNCHANGED <<scen, cfg, msg, order, reads, ch, hi, rcvd, skipTo, ackCum, ackGap, arw, outst, lastSack, sackEv, sn, step, newData, rs, acc, viol>>
 
 (***************************************************************************)
 (* Wire: one chunk of the packet announced by the preceding header         *)
@@ -343,7 +346,9 @@ TrChunkData ==
 \* --- SACK written by endpoint e (about the peer's TSNs)
 SackViol(c) ==
   LET e == c.ep
-      newlyCovered == (lastSack[e] + 1)..c.cum
+      \* (a jump of the cumulative point by more than one tracking window is judged without enumerating it)
+      jump == c.cum - MaxI(lastSack[e], skipTo[e]) > 50000
+      newlyCovered == IF jump THEN {} ELSE (MaxI(lastSack[e], skipTo[e]) + 1)..c.cum
       unsound == {t \in newlyCovered : t >= 0 /\ t \notin rcvd[e] /\ t > skipTo[e]}
       gapT == GapTSNs(c)
       prevAccepted == IF sn[e] = NoSnap THEN {} ELSE SeqSet(sn[e].held)
@@ -352,6 +357,7 @@ SackViol(c) ==
   IN
     (IF c.cum < lastSack[e] THEN {V("C05_Monotone", <<e, c.cum, lastSack[e]>>)} ELSE {})
     \cup (IF unsound # {} THEN {V("C05_CumSound", <<e, c.cum, Min(unsound)>>)} ELSE {})
+    \cup (IF jump THEN {V("C05_CumSound", <<e, c.cum, "jump">>)} ELSE {})
     \cup (IF gapT \ rcvd[e] # {} THEN {V("C05_GapSound", <<e, c.cum, Min(gapT \ rcvd[e])>>)} ELSE {})
     \cup (IF ~sorted THEN {V("C05_GapShape", <<e, c.cum, c.gaps>>)} ELSE {})
     \cup (IF sn[e] # NoSnap /\ (sn[e].rcum > c.cum \/ {t \in prevAccepted : t > c.cum} \ gapT # {})
@@ -409,7 +415,7 @@ TrChunkShutdown ==
   /\ IsEv("c") /\ E.k = "shutdown" /\ ~pkt[E.pid].forged /\ "bad" \notin DOMAIN E
   /\ pkt' = [pkt EXCEPT ![E.pid].chunks = Append(@, E)]
   /\ LET e == E.ep
-         unsound == {t \in 0..E.cum : t \notin rcvd[e] /\ t > skipTo[e]}
+         unsound == IF E.cum - skipTo[e] > 50000 THEN {E.cum} ELSE {t \in (MaxI(skipTo[e], -1) + 1)..E.cum : t \notin rcvd[e]}
      IN viol' = viol \cup (IF unsound # {} THEN {V("C08_ShutdownAckSound", <<e, E.cum, Min(unsound)>>)} ELSE {})
   /\ l' = l + 1
   /\ UNCHANGED <<scen, cfg, msg, order, reads, ch, hi, rcvd, skipTo, ackCum, ackGap, arw, outst, lastSack, sackEv, sn, step, newData, misc, rs, acc>>
@@ -632,6 +638,8 @@ SnapViol(s, R) ==
     \* C07: the receiver's next-expected cursor is where the specification says (forward-TSN skips)
     \cup {V("C07_Cursor", <<e, x.sid, IF Get(R, <<e, x.sid>>, ReasmInit).il THEN x.rmid ELSE x.rssn, Get(R, <<e, x.sid>>, ReasmInit).next>>) :
              x \in {y \in regStrs : <<e, y.sid>> \in DOMAIN R /\ (IF R[<<e, y.sid>>].il THEN y.rmid ELSE y.rssn) # R[<<e, y.sid>>].next}}
+    \* C03: the sender's cumulative ack point only moves on genuine acknowledgements
+    \cup (IF s.cumack > ackCum[e] /\ s.cumack > misc.fwdMax[e] /\ ~misc.fuzzed THEN {V("C03_NoRelease", <<e, s.cumack, ackCum[e]>>)} ELSE {})
     \* C15: per-stream buffered amount = accepted writes - bytes acknowledged (or skipped and acknowledged)
     \cup {V("C15_StreamExact", <<e, x.sid, x.ba, WrittenBytes(e, x.sid), ReleasedBytes(e, x.sid), IF x.reg THEN "registered" ELSE "unregistered">>) :
              x \in {y \in strs : y.known /\ y.ba # WrittenBytes(e, y.sid) - ReleasedBytes(e, y.sid)}}
@@ -668,6 +676,28 @@ SnapViol(s, R) ==
     \cup (IF dataHanded /\ Established(s) /\ s.st = "established" /\ (sawDup \/ sawGap) /\ sk = <<>>
           THEN {V("C19_AckImmediate", <<e, IF sawDup THEN "duplicate" ELSE "gap", s.rcum>>)} ELSE {})
 
+\* C03: what an endpoint must do with an invalid / misplaced packet of a given class (association.go
+\* handlers): "ignore" = no state change and no reply; "abort" = answered with ABORT (protocol violation)
+AdvIgnore == {"sack-cum-beyond-sent", "sack-cum-far-beyond", "sack-cum-behind", "sack-gap-start-zero", "sack-gap-reversed",
+              "sack-gap-beyond-inflight", "sack-gap-65535", "sack-gaps-unsorted-overlap",
+              "fwd-odd-length", "data-header-truncated", "unknown-chunk-type", "unknown-chunk-report-bit",
+              "init-bundled", "init-zero-streams", "cookie-ack", "shutdown-complete",
+              "error-cause-bad-length", "reconfig-response-unknown", "reconfig-unknown-param", "reconfig-empty",
+              "chunk-len-zero", "chunk-len-beyond", "sack-truncated", "port-zero", "only-header", "short-garbage"}
+AdvAbort == {"data-wrong-kind", "fwd-wrong-variant"}
+AdvViol(e, changed) ==
+  LET isRx == step.ev = "rx" /\ step.to = e /\ step.ok /\ step.pid \in DOMAIN pkt /\ pkt[step.pid].forged /\ ~pkt[step.pid].genuine
+      p == pkt[step.pid]
+      est == sn[e] # NoSnap /\ sn[e].st = "established"
+  IN IF ~isRx THEN {}
+     ELSE IF p.class = "mutated"
+     THEN (IF p.malformed /\ (changed \/ misc.txn[e] > 0)
+           THEN {V("C03_MalformedIgnored", <<e, p.kinds, IF changed THEN "state-changed" ELSE "replied">>)} ELSE {})
+     ELSE (IF p.class \in AdvIgnore /\ est /\ (changed \/ misc.txn[e] > 0)
+           THEN {V("C03_InvalidIgnored", <<e, p.class, IF changed THEN "state-changed" ELSE "replied">>)} ELSE {})
+          \cup (IF p.class \in AdvAbort /\ est /\ ~misc.abortSeen[e]
+                THEN {V("C17_WrongKindAbort", <<e, p.class>>)} ELSE {})
+
 \* C13: a packet the checksum rule rejects has no effect at all; an accepted DATA packet has one
 CkViol(e, changed) ==
   LET isRx == step.ev = "rx" /\ step.to = e /\ step.ok /\ step.pid \in DOMAIN pkt
@@ -687,9 +717,9 @@ SnapStep(s, changed) ==
   /\ acc' = [acc EXCEPT ![e] = @ \cup x.seen]
   /\ newData' = [newData EXCEPT ![e] = <<>>]
   /\ sackEv' = [sackEv EXCEPT ![e] = <<>>]
-  /\ misc' = [misc EXCEPT !.cbs = [k \in DOMAIN @ |-> IF k[1] = e THEN 0 ELSE @[k]], !.txn[e] = 0, !.rsGen = x.G,
+  /\ misc' = [misc EXCEPT !.cbs = [k \in DOMAIN @ |-> IF k[1] = e THEN 0 ELSE @[k]], !.txn[e] = 0, !.abortSeen[e] = FALSE, !.rsGen = x.G,
                            !.pendReads = SelectSeq(@, LAMBDA r : r.ep # e)]
-  /\ viol' = viol \cup SnapViol(s, x.R) \cup AckLate(s.t) \cup CkViol(e, changed) \cup x.rv
+  /\ viol' = viol \cup SnapViol(s, x.R) \cup AckLate(s.t) \cup CkViol(e, changed) \cup AdvViol(e, changed) \cup x.rv
 
 TrSnap ==
   /\ IsEv("snap")
@@ -854,6 +884,15 @@ TrShutEnd ==
   /\ l' = l + 1
   /\ UNCHANGED <<scen, cfg, msg, order, reads, ch, hi, pkt, rcvd, skipTo, ackCum, ackGap, arw, outst, lastSack, sackEv, sn, step, newData, misc, rs, acc>>
 
+\* end of an adversary scenario: an ignorable packet must not have cost the association its life
+TrAdvEnd ==
+  /\ IsEv("advend")
+  /\ viol' = viol \cup (IF E.class \in AdvIgnore /\ E.sit \in {"idle", "inflight", "gap", "closing-stream"}
+                            /\ (E.st[1] # "established" \/ E.st[2] # "established")
+                         THEN {V("C03_InvalidIgnored", <<E.to, E.class, "association-lost", E.st>>)} ELSE {})
+  /\ l' = l + 1
+  /\ UNCHANGED <<scen, cfg, msg, order, reads, ch, hi, pkt, rcvd, skipTo, ackCum, ackGap, arw, outst, lastSack, sackEv, sn, step, newData, misc, rs, acc>>
+
 Passive == {"drop", "connclose", "txfail", "note"}
 TrPassive ==
   /\ l <= Len(Trace) /\ Trace[l].ev \in Passive
@@ -862,7 +901,7 @@ TrPassive ==
   /\ UNCHANGED <<scen, cfg, msg, order, reads, ch, hi, pkt, rcvd, skipTo, ackCum, ackGap, arw, outst, lastSack, sackEv, sn, newData, misc, rs, acc, viol>>
 
 Next == TrCfg \/ TrWCall \/ TrWrite \/ TrRead \/ TrTx \/ TrForge \/ TrChunkData \/ TrChunkSack \/ TrChunkFwd \/ TrChunkShutdown \/ TrChunkReconfig \/ TrChunkHb \/ TrChunkOther
-        \/ TrRx \/ TrSnap \/ TrSame \/ TrEnd \/ TrApi \/ TrCb \/ TrTick \/ TrExpect \/ TrDiff \/ TrHsFinal \/ TrHsSpecial \/ TrShutEnd \/ TrPassive
+        \/ TrRx \/ TrSnap \/ TrSame \/ TrEnd \/ TrApi \/ TrCb \/ TrTick \/ TrExpect \/ TrDiff \/ TrHsFinal \/ TrHsSpecial \/ TrShutEnd \/ TrAdvEnd \/ TrPassive
 
 Spec == Init /\ [][Next]_vars
 
